@@ -436,7 +436,7 @@ impl Interner {
 }
 
 /// Order in which the serial walker reads directories in the current case: None = read_dir order,
-/// Some(reverse) = sort_by_file_name.  Used for the description handed to the serial models and for the F25 attribution.
+/// Some(reverse) = sort_by_file_name.  Used for the description handed to the serial models and for the detection of the former F25 shape.
 static SORT: Mutex<Option<bool>> = Mutex::new(None);
 
 fn list_dir(p: &Path) -> std::io::Result<Vec<PathBuf>> {
@@ -562,7 +562,7 @@ fn ignored_by(igns: &[Vec<String>], name: &str) -> bool {
 struct Lister<'a> {
     cfg: &'a Cfg,
     out: Vec<(char, PathBuf)>,
-    /// F25 mechanism, established independently of the walkers and of the model: the items at or below the LATER
+    /// Mechanism of the (repaired) finding F25, established independently of the walkers and of the model: the items at or below the LATER
     /// siblings (in read_dir order) of a directory that lies on another device than its root (same_file_system)
     /// and is also rejected by an ignore rule or the filter.  These are what the serial walker loses.
     lost: Vec<(char, PathBuf)>,
@@ -608,7 +608,7 @@ impl<'a> Lister<'a> {
         depth: usize,
         root_dev: Option<u64>,
     ) {
-        // raw read_dir order: which siblings come "later" matters for the F25 attribution (the output is sorted anyway)
+        // raw read_dir order: which siblings come "later" matters for the former-F25-shape evidence (the output is sorted anyway)
         let kids: Vec<PathBuf> = match list_dir(dir) {
             Ok(v) => v,
             Err(_) => return,
@@ -628,7 +628,7 @@ impl<'a> Lister<'a> {
             }
         }
     }
-    /// One child of a listed directory; returns true iff it is an F25 hazard (off-device directory that is rejected).
+    /// One child of a listed directory; returns true iff it has the shape of the former F25 hazard (off-device directory that is rejected).
     fn child(
         &mut self,
         p: &Path,
@@ -910,7 +910,7 @@ fn run_case(c: &Case, text: &str, env: &mut Env, drv: &mut Driver, rep: &mut Rep
     let locked_tree = has_locked(&c.main);
     let uid_guard = FsUid::drop_if(locked_tree);
     // with sort_by_file_name the serial walker reads directories in sorted order: the description handed to the
-    // models and the F25 attribution of the listing follow that order (everything else is order-insensitive)
+    // models and the former-F25-shape detection of the listing follow that order (everything else is order-insensitive)
     struct SortGuard;
     impl Drop for SortGuard {
         fn drop(&mut self) {
@@ -1032,10 +1032,9 @@ fn run_case(c: &Case, text: &str, env: &mut Env, drv: &mut Driver, rep: &mut Rep
         let m_sd = askd("ser");
         let m_pd = askd("par");
         // An error visit presupposes that the walker reports the directory at all.  The rule of Spec/ReachDenied.lean
-        // is stated over the reachable entries; the serial walker, however, loses whole subtrees through the known
-        // defect F25 (later siblings of a skipped off-device directory) — with their error visits.  So the serial
-        // expectation is the rule restricted to the directories the serial MODEL (which has that defect) reports.
-        // Without F25 at work this restriction changes nothing.
+        // is stated over the reachable entries; the serial expectation is the rule restricted to the directories the
+        // serial MODEL reports (since the repair of F25 that is all of them: serial_eq_reach; the restriction is kept
+        // so that the comparison stays meaningful should the serial model ever deviate again).
         let m_ser_entries: Vec<String> = {
             let r = drv.ask(&format!(
                 "c06.walk serial {} (forest {}) (roots {})",
@@ -1105,26 +1104,20 @@ fn run_case(c: &Case, text: &str, env: &mut Env, drv: &mut Driver, rep: &mut Rep
     let m_reach = ask(drv, "reach");
     let guard = ask(drv, "guard");
     let hazard = guard == vec!["0".to_string()];
-    // Attribution to the known finding F25 only when its mechanism is demonstrably at work: same_file_system is on,
-    // the independent listing found a directory on another device that is also rejected by a rule / the filter, the
-    // parallel walker is right (= listing), and what the SERIAL walker misses is exactly the items at or below the
-    // later siblings (read_dir order) of such a directory — nothing else missing, nothing extra.
-    let attributed = {
-        let mut ser_plus_lost: Vec<String> = ser.iter().cloned().chain(lost.iter().cloned()).collect();
-        ser_plus_lost.sort();
-        c.cfg.samefs && lister_hazards > 0 && !lost.is_empty() && par == lst && ser_plus_lost == lst
-    };
-    let class = if attributed { "skipped-dir-on-other-filesystem" } else { "" };
-    if attributed {
-        rep.branch("class:skipped-dir-on-other-filesystem:attributed");
-    } else if hazard && ser != par {
-        rep.branch("class:skipped-dir-on-other-filesystem:hazard-present-but-mechanism-not-established");
+    // Finding F25 (the serial walker lost the later siblings of a skipped off-device directory) is repaired: there is
+    // no class any more, every difference is a plain violation.  The shape that triggered it (`hazard`: a directory on
+    // another device that is also rejected by a rule / the filter, detected independently by the listing and by
+    // Spec.Reach.hazardFree) stays in the evidence, and `lost` (what the defect would drop) must be non-empty in some
+    // case for the branch `former-f25-shape-with-later-siblings`, so that the regression is demonstrably exercised.
+    let class = "";
+    if c.cfg.samefs && lister_hazards > 0 && !lost.is_empty() {
+        rep.branch("former-f25-shape-with-later-siblings");
     }
     if (lister_hazards > 0) != hazard {
         rep.violation(Violation {
             kind: "impl_vs_model".into(),
             class: "".into(),
-            tie: "independent listing's F25 hazard detection vs Spec.Reach.hazardFree (c06.walk guard)".into(),
+            tie: "independent listing's detection of the former F25 shape vs Spec.Reach.hazardFree (c06.walk guard)".into(),
             case: text.into(),
             detail: format!("listing found {} hazard directories, model guard says hazard={}", lister_hazards, hazard),
         });
@@ -1249,7 +1242,7 @@ fn run_case(c: &Case, text: &str, env: &mut Env, drv: &mut Driver, rep: &mut Rep
         });
     }
     // model vs spec (what the theorems state)
-    if m_par != m_reach || (!hazard && m_ser != m_reach) {
+    if m_par != m_reach || m_ser != m_reach {
         rep.violation(Violation {
             kind: "model_vs_spec".into(),
             class: "".into(),
